@@ -35,6 +35,7 @@ namespace {
     std::map<int, std::map<int, int64_t>> fns; // fn -> sig -> value
     std::map<int, int64_t> globs, classes, cfns;
     std::set<int> types, files;
+    int64_t method_missing = -1; // value returned by the script-defined method_missing for ints, -1 = not defined
   };
 
   class C15 : public World {
@@ -55,7 +56,7 @@ namespace {
       for (int i = 0; i < n; ++i) {
         J op = J::object();
         op["a"] = J(int(plan.below(uint64_t(T))));
-        const int k = int(plan.below(25));
+        const int k = int(plan.below(26));
         switch (k) {
         case 0:
         case 1:
@@ -128,6 +129,10 @@ namespace {
         case 22:
         case 23:
           op["k"] = J("bg_use"); // use() of the two-part file, free-running: may overlap get_state / set_state of the chain
+          break;
+        case 24:
+          op["k"] = J("def_mm"); // a method_missing handler for ints: answers every member call nothing else matches
+          op["v"] = J(v++);
           break;
         default:
           op["k"] = J("use2check");
@@ -282,6 +287,13 @@ namespace {
             const bool have = model.files.count(u) != 0;
             if (have ? out != "=i:" + std::to_string(7000 + u) : !is_err(out)) {
               bad(oi, "used-file-function-differs-from-model", "from_u" + std::to_string(u) + "() -> " + out);
+            }
+          }
+          {
+            // an unmatched member call on an int: answered by method_missing iff the state has one
+            const std::string out = eval_show(e, "1.no_such_member_zz()");
+            if (model.method_missing >= 0 ? out != "=i:" + std::to_string(model.method_missing) : !is_err(out)) {
+              bad(oi, "method_missing-differs-from-model", "1.no_such_member_zz() -> " + out + ", model: " + (model.method_missing >= 0 ? std::to_string(model.method_missing) : std::string("absent")));
             }
           }
           // per-thread locals are not part of the state
@@ -446,6 +458,18 @@ namespace {
                 if (i + 1 < snap_states.size()) {
                   cnt[size_t(a)]["probe_restored_older_than_latest_snapshot"] += 1;
                 }
+              }
+            } else if (k == "def_mm") {
+              out = eval_show(e, "def method_missing(int i, string name, Vector v) { " + std::to_string(num("v")) + " }");
+              if (model.method_missing >= 0) {
+                if (out.rfind("!eval_error|Function redefined", 0) != 0) {
+                  bad(oi, "redefinition-not-rejected", out);
+                }
+              } else {
+                if (out != "=void") {
+                  bad(oi, "definition-rejected", out);
+                }
+                model.method_missing = num("v");
               }
             } else if (k == "use2check") {
               // whatever snapshots were taken and restored while a background use() was in flight:
